@@ -11,7 +11,7 @@ FragsV == { <<"ta">>, <<"ta", "1">>, <<"ta", "1", "r">>, <<"ta", "1", "rs">>, <<
             <<"ta", "1", "zz">>, <<"ta", "1", "relationships", "zz">>, <<"ta", "1", "rs", "x", "y", "z">>, <<"meta">>,
             <<"ta", "1", "relationships">>, <<"tb", "2", "relationships">>, <<"ta", "1", "rs", "x", "r">>,
             <<"ta", "1", "relationships", "rs", "x">>, <<"td">>, <<"ta", "1", "t">>,
-            <<"e">>, <<"e", "1">>,
+            <<"e">>, <<"e", "1">>, <<"ta", "meta">>, <<"tb", "relationships">>, <<"ta", "meta", "rs">>,
             \* five fragments and more, the last one a to-many relationship
             <<"ta", "1", "x", "y", "rs">>, <<"ta", "1", "relationships", "rs", "rs">>, <<"tb", "2", "a", "b", "c", "s">> }
 FieldsV == { <<>>, [ta |-> <<"x">>], [ta |-> <<"x", "y", "r">>], [ta |-> <<"x", "x">>], [ta |-> <<>>],
